@@ -398,6 +398,12 @@ inductive Dir | left | right | full
 inductive Join
   | cross
   | outer (dir : Dir) (on : List Row → Except Err Tern)
+  /-- `A [LEFT|RIGHT|FULL] JOIN B USING (cols)` (`dir = none`: INNER) and, with `cols = none`, `A NATURAL … JOIN B` (the
+      columns of A, in A's order, that B has too).  `eqv` = csvq's `=` on two cells.  The records that are joined are those
+      of the ON join `A.c₁ = B.c₁ AND …`; what differs is the LAYOUT of the joined view (`joinedLayout`): the merged columns
+      stand in front, both originals are dropped — the data-changing functions must not take a position in the joined view
+      for a position in the table. -/
+  | using (dir : Option Dir) (cols : Option (List String)) (eqv : Cell → Cell → Tern)
 
 def nullRow (w : Nat) : Row := List.replicate w nullCell
 
@@ -432,6 +438,50 @@ def unmatchedRight (on : Row → Row → Except Err Tern) (A : List (Option Nat 
   | b :: bs =>
     if A.any (fun a => match on a.2 b.2 with | .ok c => isT c | .error _ => false) then unmatchedRight on A bs
     else b :: unmatchedRight on A bs
+
+/-- inner join with a condition: the pairs of the cross join (left table varies slowest) the condition accepts -/
+def innerLoop (on : Row → Row → Except Err Tern) (inner : List (Option Nat × Row)) : List (Option Nat × Row) → Except Err (List JRow)
+  | [] => .ok []
+  | o :: os =>
+    match partners (on o.2) inner with
+    | .error e => .error e
+    | .ok ms =>
+      match innerLoop on inner os with
+      | .error e => .error e
+      | .ok rest => .ok (ms.map (fun j => [o, j]) ++ rest)
+
+/-- ParseJoinCondition over the USING list: a repeated name is refused, every name must be a column of both tables -/
+def usingIdx (ha hb : List String) : List String → List String → Except Err (List (Nat × Nat))
+  | _, [] => .ok []
+  | seen, v :: vs =>
+    if v ∈ seen then .error .dupField
+    else match colIndex ha v with
+      | .error e => .error e
+      | .ok i =>
+        match colIndex hb v with
+        | .error e => .error e
+        | .ok j =>
+          match usingIdx ha hb (v :: seen) vs with
+          | .error e => .error e
+          | .ok r => .ok ((i, j) :: r)
+
+/-- NATURAL: the columns of the left table, in its order, that the right table has too -/
+def naturalCols (ha hb : List String) : List String := ha.filter fun c => c ∈ hb
+
+/-- `A.c₁ = B.c₁ AND A.c₂ = B.c₂ …`: TRUE iff every comparison is TRUE -/
+def usingOn (eqv : Cell → Cell → Tern) (idx : List (Nat × Nat)) : List Row → Except Err Tern
+  | [ra, rb] => .ok (if idx.all (fun p => isT (eqv (ra[p.1]?.getD nullCell) (rb[p.2]?.getD nullCell))) then .T else .F)
+  | _ => .error (.other 0)
+
+/-- the name LoadView gives the internal-id column of every table -/
+def idColumn : String := "@__internal_id"
+
+/-- THE HEADER OF THE JOINED VIEW (view name, column) that LoadView builds for a data-changing statement: per table its
+    internal-id column followed by its columns; joinViews then moves the merged columns of a USING / NATURAL join to the front
+    (view name "", in USING order) and drops both originals (load_view.go joinViews, includeIndices / excludeIndices) -/
+def joinedLayout (a b : String) (ha hb U : List String) : List (String × String) :=
+  U.map (fun c => ("", c)) ++ ((a, idColumn) :: (ha.filter fun c => c ∉ U).map fun c => (a, c)) ++
+    ((b, idColumn) :: (hb.filter fun c => c ∉ U).map fun c => (b, c))
 
 def outerJoin (dir : Dir) (on : List Row → Except Err Tern) (wa wb : Nat) (A B : List (Option Nat × Row)) : Except Err (List JRow) :=
   let padA : Option Nat × Row := (none, nullRow wa)
@@ -472,6 +522,18 @@ def joinRows (join : Join) (srcs : List Table) : Except Err (List JRow) :=
   | .outer dir on =>
     match srcs with
     | [a, b] => outerJoin dir on a.header.length b.header.length (idRows a.rows 0) (idRows b.rows 0)
+    | _ => .error (.other 0)
+  | .using dir cols eqv =>
+    match srcs with
+    | [a, b] =>
+      match usingIdx a.header b.header [] (cols.getD (naturalCols a.header b.header)) with
+      | .error e => .error e
+      | .ok [] => .error (.other 0)   -- (no common column: the join has no condition; not modelled)
+      | .ok idx =>
+        let on := usingOn eqv idx
+        match dir with
+        | none => innerLoop (fun ra rb => on [ra, rb]) (idRows b.rows 0) (idRows a.rows 0)
+        | some d => outerJoin d on a.header.length b.header.length (idRows a.rows 0) (idRows b.rows 0)
     | _ => .error (.other 0)
 
 /-- the filtered joined view of a multi-table statement -/
